@@ -38,7 +38,8 @@ def check(rep, tier, rng):
     for base in [sup[0]["text"], "const A = 1;", "struct s { int a; };", ""]:
         for j in ["\x0c", "\x0b", "\u0085", "\u00a0", "\u2028", "\u2029", "\u3000", "\u1680", "\ufeff", "\u200b", "\x00", "\x1a", "\r", "\r\n", " \t\n"]:
             aff += [j + base, base + j, j + base + j]
-    cases = (sup + oos + mut + [{"text": t, "kind": "golden"} for t in t3.golden_inputs()] + [{"text": t, "kind": "typedef-cycle"} for t in cyc]
+    nm = [{"text": specgen.render(items), "kind": "names", "tag": ctag} for ctag, items in specgen.names_catalog()]
+    cases = (nm + sup + oos + mut + [{"text": t, "kind": "golden"} for t in t3.golden_inputs()] + [{"text": t, "kind": "typedef-cycle"} for t in cyc]
              + [{"text": t, "kind": "unicode-space-affix"} for t in aff])
     texts = [c["text"] for c in cases]
     res = t3.run_texts(texts)
